@@ -92,6 +92,16 @@ func histStarts(thorough bool) []histStart {
 				}, false, false, nil)
 			}
 		}
+		if ver == 3 {
+			// constructor results whose exported fields were assigned one by one (never decoded)
+			for level := 0; level < 3; level++ {
+				level := level
+				bg := reportBackgrounds()[level]
+				full := lang.Project(3, level, bg.tok)
+				add(fmt.Sprintf("v3 %s built by assigning the exported fields to %s", spec.LevelNames[level], canonicalWritten(3, level, bg.ver, full)), 3, level,
+					func() any { return fieldBuilt(3, level, bg.ver, full) }, true, false, full)
+			}
+		}
 		vecs := seeds(ver)
 		if ver == 3 {
 			// Modified metrics that differ from their base metrics, in both directions
